@@ -132,6 +132,7 @@ def run(ctx):
         fp = circmon.circuit_fingerprint(base, with_unitary=True)
         objs = {}
         reuse_round = 0
+        pp = None
         try:
           while True:
             choi_ref = tomo.choi_from_unitary(v)
@@ -190,11 +191,29 @@ def run(ctx):
             if reuse_round == 0 and rng.random() < 0.35 and (n == 1 or method != "MLE"):
                 reuse_round = 1
                 qi = int(rng.integers(n))
-                gate, desc = random_1q(lw, rng)
-                base.add(gate, base_off + 2 * qi)
+                if rng.random() < 0.4:
+                    pp = lw.Parameter(float(rng.uniform(0.4, 2.6)))
+                    base.ps(base_off + 2 * qi + int(rng.integers(2)), pp)
+                    base.add(lw.qubit.H(), base_off + 2 * qi)
+                    desc = ["ps(Parameter) + H"]
+                else:
+                    gate, desc = random_1q(lw, rng)
+                    base.add(gate, base_off + 2 * qi)
                 log.append(desc + [qi, "added in place after the first process()"])
                 case["reused_after_in_place_edit"] = True
                 ctx.bucket("tomography_object_reused_after_edit")
+                m = tomoref.dual_rail_matrix(base, n)
+                v, c, dev = tomoref.normalised_unitary(m)
+                if v is None or dev > 1e-8:
+                    break
+                fp = circmon.circuit_fingerprint(base, with_unitary=True)
+                continue
+            if reuse_round == 1 and pp is not None:
+                # ... and once more after only the value of that Parameter changed
+                reuse_round = 2
+                pp.set(float(pp.get() + rng.uniform(0.5, 2.0)))
+                log.append(["that Parameter set to another value after the second process()"])
+                ctx.bucket("tomography_object_reused_after_parameter_change")
                 m = tomoref.dual_rail_matrix(base, n)
                 v, c, dev = tomoref.normalised_unitary(m)
                 if v is None or dev > 1e-8:
